@@ -500,17 +500,17 @@ OnPagerEv(e) ==
     LET ns == IF "ns" \in DOMAIN e THEN ItemsOf(e.ns) ELSE {} IN
     CASE e.ev = "pick" ->
            /\ PickEffect(e.i)
-           /\ LET ds == Filter(IfDev(PickGuard(e.i), "C02", "pager: wrong state picked", <<e.i, pending>>)) IN
+           /\ LET ds == Filter(IfDev(PickGuardAny(e.i), "C02", "pager: a state picked that is closed already, or before the successors of the current one are done", <<e.i, pending>>)) IN
               Report(ds) /\ ndev' = ndev + Cardinality(ds)
            /\ UNCHANGED <<inst, C, X, A, T, pg>>
       [] e.ev = "exact" ->
            /\ ExactEffect(e.sym, e.k, ns)
-           /\ LET ds == Filter(IfDev(ExactGuard(e.sym, e.k, ns), "C02", "pager: exact-match step not prescribed", <<e.sym, e.k>>)) IN
+           /\ LET ds == Filter(IfDev(ExactGuardAny(e.sym, e.k, ns), "C02", "pager: exact-match step not prescribed (the target's kernel is not the successor's)", <<e.sym, e.k>>)) IN
               Report(ds) /\ ndev' = ndev + Cardinality(ds)
            /\ UNCHANGED <<inst, C, X, A, T, pg>>
       [] e.ev = "merge" ->
            /\ MergeEffect(e.sym, e.k, ns)
-           /\ LET ds == Filter(IfDev(MergeGuard(e.sym, e.k, ns), "C02", "pager: merge step not prescribed (not weakly compatible / not first candidate / exact match exists)", <<e.sym, e.k>>)) IN
+           /\ LET ds == Filter(IfDev(MergeGuardAny(e.sym, e.k, ns), "C02", "pager: merge step not prescribed (not weakly compatible / exact match exists)", <<e.sym, e.k>>)) IN
               Report(ds) /\ ndev' = ndev + Cardinality(ds)
            /\ UNCHANGED <<inst, C, X, A, T, pg>>
       [] e.ev = "new" ->
